@@ -2,7 +2,7 @@ package main
 
 // NODE-HEAP translator (second half of -out-ast, namespace PV.FactsAstProg): the primitives of package ast that mutate node
 // structs and list arrays IN PLACE — ast.SetReaderPos, NodeList.SetReaderPos, (*TerminalNode).SetReaderPos,
-// (*NonTerminalNode).SetReaderPos, parser.EndNode.SetReaderPos — translated statement by statement into Lean definitions over
+// (*NonTerminalNode).SetReaderPos, parser.EndNode.SetReaderPos, ast.AppendNode, (*NodeList).Append — translated statement by statement into Lean definitions over
 // the run-time of lean/ParsleyVerif/Generated/SlicePrelude.lean (hand-written: node structs on a heap, a NodeList as a slice
 // header into a heap of arrays of interface values, the closed set of dynamic node types).  The slice-level machine of C07
 // (Model/Slice.lean) is PROVED to do what the translated functions do (Props/C07P.lean).
@@ -20,6 +20,18 @@ package main
 //   * `for i, v := range s` over a list evaluates the header once and reads s[i] in every round;
 //   * p.readerPos / p.readerPos = e on a node pointer, s[i] / s[i] = e on a list, f(e) on the call-back, conversions between
 //     the integer types, comparisons with nil.
+//   * a method with a POINTER receiver to a list (`func (nl *NodeList) Append(…)`) is an IN-OUT function: it takes the current
+//     value of `*nl` and returns the new one; `*nl` reads the variable, `*nl = e` rebinds it (Lean shadowing), a call
+//     `x.Append(a)` on a local variable / on the receiver rebinds `x`.  This is sound because the pointer is used for nothing
+//     else (checked: the pointer variable occurs only under `*` and as the receiver of a method call);
+//   * `append(s, v)` is `Go.append` (in place when len < cap, else a fresh array by the growth policy of the store),
+//     `[]parsley.Node{…}` is `Go.litSlice`; `x == v` between an interface value and a value of a comparable node type is
+//     equality of interface values;
+//   * a loop whose body returns, or changes a variable of the function, is a loop function in CONTINUATION style: it takes
+//     the variables it (and what follows it) mentions, and its exit branch is what follows the loop in the function;
+//   * a call of an unexported function / method of the package that is not a target (a helper a refactoring split off) is
+//     translated IN LINE in continuation style: every `return v` of the helper goes on with what follows the call, given v
+//     (an `if` on a constant result is folded), so the definitions do not depend on whether the helper was split off.
 // Anything else makes the function (and with it the whole group) "untranslated", with the reason, which the tie notices.
 
 import (
@@ -49,6 +61,8 @@ var astProgTargets = []paTarget{
 	{"ast", "TerminalNode", "SetReaderPos"},
 	{"ast", "NonTerminalNode", "SetReaderPos"},
 	{"parser", "EndNode", "SetReaderPos"},
+	{"ast", "", "AppendNode"},
+	{"ast", "NodeList", "Append"},
 }
 
 type paFn struct {
@@ -59,6 +73,8 @@ type paFn struct {
 	obj  *types.Func
 	text []string
 	err  string
+	// a method with a pointer receiver to a list: takes the value of *recv, returns the new value
+	inout bool
 }
 
 type paGen struct {
@@ -81,6 +97,33 @@ type paCtx struct {
 	used   map[string]bool
 	ret    func(val string) []string
 	inLoop bool
+	sig    *types.Signature    // of the function whose body is being translated (the target, or a helper in line)
+	resTy  string              // Lean result type of the target
+	inout  map[*types.Var]bool // pointer variables standing for the list variable they point to
+	scope  []paVar             // the Lean variables bound on the path to the current statement
+	inl    []*types.Func       // helpers being translated in line
+}
+
+type paVar struct{ name, ty string }
+
+func (c *paCtx) bind(name, ty string) {
+	if name == "_" {
+		return
+	}
+	for _, v := range c.scope {
+		if v.name == name {
+			return
+		}
+	}
+	c.scope = append(c.scope, paVar{name, ty})
+}
+
+// a branch: what it binds is not in scope after it
+func (c *paCtx) scoped(f func() []string) []string {
+	n := len(c.scope)
+	out := f()
+	c.scope = c.scope[:n:n]
+	return out
 }
 
 func paFail(format string, a ...interface{}) { panic(paErr{fmt.Sprintf(format, a...)}) }
@@ -156,6 +199,12 @@ func (g *paGen) leanType(t types.Type) string {
 	if paIsInt(t) {
 		return "Int"
 	}
+	if sl, ok := t.Underlying().(*types.Slice); ok && paIsIface(sl.Elem()) {
+		return "Sl" // []parsley.Node: a list header
+	}
+	if g.isListPtr(t) {
+		return "Sl" // an in-out list variable
+	}
 	if b, ok := t.Underlying().(*types.Basic); ok && b.Kind() == types.Bool {
 		return "Bool"
 	}
@@ -165,6 +214,16 @@ func (g *paGen) leanType(t types.Type) string {
 	}
 	paFail("a value of type %s", types.TypeString(t, func(p *types.Package) string { return p.Name() }))
 	return ""
+}
+
+// *NodeList
+func (g *paGen) isListPtr(t types.Type) bool {
+	p, ok := t.(*types.Pointer)
+	if !ok {
+		return false
+	}
+	k := g.kindOf(p.Elem())
+	return k != nil && k.lean == "Sl"
 }
 
 // a value `code` of static type `from` used where `to` is expected
@@ -247,9 +306,33 @@ func (c *paCtx) expr(e ast.Expr, pre *[]string) string {
 		}
 		o := c.info.Uses[x]
 		if v, ok := o.(*types.Var); ok && !v.IsField() && v.Pkg() != nil && v.Parent() != v.Pkg().Scope() {
+			if c.inout[v] {
+				paFail("the pointer %s used as a value", x.Name)
+			}
 			return c.name(v)
 		}
 		paFail("identifier %s", x.Name)
+	case *ast.StarExpr:
+		if id, ok := paParen(x.X).(*ast.Ident); ok {
+			if v, ok := c.info.Uses[id].(*types.Var); ok && c.inout[v] {
+				return c.name(v)
+			}
+		}
+		paFail("dereference %s", norm(x))
+	case *ast.CompositeLit:
+		if sl, ok := c.typeOf(x).Underlying().(*types.Slice); ok && paIsIface(sl.Elem()) {
+			var es []string
+			for _, e := range x.Elts {
+				if _, kv := e.(*ast.KeyValueExpr); kv {
+					paFail("slice literal with keys")
+				}
+				es = append(es, c.inject(c.expr(e, pre), c.typeOf(e), sl.Elem()))
+			}
+			t := c.fresh()
+			*pre = append(*pre, fmt.Sprintf("let %s ← Go.litSlice [%s]", t, strings.Join(es, ", ")))
+			return t
+		}
+		paFail("composite literal %s", norm(x))
 	case *ast.BasicLit:
 		if x.Kind == token.INT {
 			return x.Value
@@ -296,6 +379,23 @@ func (c *paCtx) expr(e ast.Expr, pre *[]string) string {
 			}
 			if isNil(lt) && paIsIface(rt) {
 				return "(" + neg + "Node.isNil " + paAtom(c.expr(x.Y, pre)) + ")"
+			}
+			// an interface value against a value of a comparable node type (never a run-time panic: a list on the left has
+			// another dynamic type than the right-hand side)
+			cmpIface := func(ie, ke ast.Expr, kt types.Type) string {
+				k := c.g.kindOf(kt)
+				if k == nil || k.lean == "Sl" {
+					paFail("comparison %s", norm(x))
+				}
+				a := c.expr(ie, pre)
+				b := c.inject(c.expr(ke, pre), kt, c.typeOf(ie))
+				return fmt.Sprintf("(%sdecide (%s = %s))", neg, a, b)
+			}
+			if paIsIface(lt) && !paIsIface(rt) && !isNil(rt) {
+				return cmpIface(x.X, x.Y, rt)
+			}
+			if paIsIface(rt) && !paIsIface(lt) && !isNil(lt) {
+				return cmpIface(x.Y, x.X, lt)
 			}
 			if paIsInt(lt) && paIsInt(rt) && c.g.kindOf(lt) == nil && c.g.kindOf(rt) == nil {
 				op := "="
@@ -345,6 +445,15 @@ func (c *paCtx) call(x *ast.CallExpr, pre *[]string) (code string, unit bool) {
 				if k := c.g.kindOf(c.typeOf(x.Args[0])); k != nil && k.lean == "Sl" {
 					return "Go.len " + paAtom(c.expr(x.Args[0], pre)), false
 				}
+			case "append":
+				if len(x.Args) == 2 && !x.Ellipsis.IsValid() && c.g.leanType(c.typeOf(x.Args[0])) == "Sl" {
+					sl := c.expr(x.Args[0], pre)
+					et := c.typeOf(x.Args[0]).Underlying().(*types.Slice).Elem()
+					v := c.inject(c.expr(x.Args[1], pre), c.typeOf(x.Args[1]), et)
+					t := c.fresh()
+					*pre = append(*pre, fmt.Sprintf("let %s ← Go.append %s %s", t, paAtom(sl), paAtom(v)))
+					return t, false
+				}
 			}
 			paFail("builtin %s", o.Name())
 		case *types.Var: // the call-back
@@ -369,7 +478,27 @@ func (c *paCtx) call(x *ast.CallExpr, pre *[]string) (code string, unit bool) {
 		}
 		m := sel.Obj().(*types.Func)
 		rt := c.typeOf(se.X)
-		r := c.expr(se.X, pre)
+		if mr := m.Type().(*types.Signature).Recv(); mr != nil && c.g.isListPtr(mr.Type()) { // in-out method: rebinds the variable
+			v := c.listVar(se.X)
+			f := c.g.byObj[m]
+			if v == nil {
+				paFail("call of %s: the receiver is not a list variable", norm(se))
+			}
+			if f == nil || !f.inout {
+				paFail("call of %s, which is not among the translated functions", m.FullName())
+			}
+			code, unit := c.callFn(f, m, c.name(v), x.Args, pre)
+			if !unit {
+				paFail("call of %s: a pointer-receiver method with a result", norm(se))
+			}
+			return "let " + c.name(v) + " ← " + code, true
+		}
+		var r string
+		if v := c.listVar(se.X); v != nil && c.inout[v] { // (*nl).m(…) written nl.m(…)
+			r, rt = c.name(v), v.Type().(*types.Pointer).Elem()
+		} else {
+			r = c.expr(se.X, pre)
+		}
 		if paIsIface(rt) { // dynamic dispatch
 			var arms []string
 			sig := m.Type().(*types.Signature)
@@ -400,13 +529,41 @@ func (c *paCtx) call(x *ast.CallExpr, pre *[]string) (code string, unit bool) {
 			*pre = append(*pre, fmt.Sprintf("let %s ← %s", t, mt))
 			return t, false
 		}
-		if _, ptr := sel.Recv().(*types.Pointer); ptr && c.g.kindOf(sel.Recv()) == nil {
+		if _, ptr := rt.(*types.Pointer); ptr && c.g.kindOf(rt) == nil {
 			paFail("call of %s on a pointer", norm(se))
 		}
 		return c.callFn(c.g.byObj[m], m, r, x.Args, pre)
 	}
 	paFail("call %s", norm(x))
 	return "", false
+}
+
+// the list variable e denotes: a local variable of list type, or an in-out pointer (possibly under `*`)
+func (c *paCtx) listVar(e ast.Expr) *types.Var {
+	e = paParen(e)
+	if st, ok := e.(*ast.StarExpr); ok {
+		if id, ok := paParen(st.X).(*ast.Ident); ok {
+			if v, ok := c.info.Uses[id].(*types.Var); ok && c.inout[v] {
+				return v
+			}
+		}
+		return nil
+	}
+	id, ok := e.(*ast.Ident)
+	if !ok {
+		return nil
+	}
+	v, ok := c.info.Uses[id].(*types.Var)
+	if !ok || v.IsField() || v.Pkg() == nil || v.Parent() == v.Pkg().Scope() {
+		return nil
+	}
+	if c.inout[v] {
+		return v
+	}
+	if k := c.g.kindOf(v.Type()); k != nil && k.lean == "Sl" {
+		return v
+	}
+	return nil
 }
 
 func (c *paCtx) callFn(f *paFn, o *types.Func, recv string, args []ast.Expr, pre *[]string) (string, bool) {
@@ -425,6 +582,9 @@ func (c *paCtx) callFn(f *paFn, o *types.Func, recv string, args []ast.Expr, pre
 		parts = append(parts, paAtom(c.inject(c.expr(a, pre), c.typeOf(a), sig.Params().At(i).Type())))
 	}
 	callCode := strings.Join(parts, " ")
+	if f.inout && sig.Results().Len() != 0 {
+		paFail("call of %s: a pointer-receiver method with a result", o.FullName())
+	}
 	if sig.Results().Len() == 0 {
 		return callCode, true
 	}
@@ -447,17 +607,27 @@ func (c *paCtx) typeTest(ev string, from types.Type, t ast.Expr, bind types.Obje
 	if t == nil { // default
 		if bind != nil {
 			lines = append(lines, fmt.Sprintf("let %s : %s := %s", c.name(bind), c.g.leanType(from), ev))
+			c.bind(c.name(bind), c.g.leanType(from))
 		}
 		return append(lines, yes()...)
 	}
+	yesB := func(ty string) []string {
+		return c.scoped(func() []string {
+			if bind != nil {
+				c.bind(c.name(bind), ty)
+			}
+			return yes()
+		})
+	}
+	noB := func() []string { return c.scoped(no) }
 	if id, ok := paParen(t).(*ast.Ident); ok && id.Name == "nil" && c.info.Uses[id] == types.Universe.Lookup("nil") {
 		lines = append(lines, "if Node.isNil "+ev+" then")
 		if bind != nil {
 			lines = append(lines, fmt.Sprintf("  let %s : Node := %s", c.name(bind), ev))
 		}
-		lines = append(lines, paIndent(yes())...)
+		lines = append(lines, paIndent(yesB("Node"))...)
 		lines = append(lines, "else")
-		return append(lines, paIndent(no())...)
+		return append(lines, paIndent(noB())...)
 	}
 	tt := c.typeOf(t)
 	if paIsIface(tt) {
@@ -465,9 +635,9 @@ func (c *paCtx) typeTest(ev string, from types.Type, t ast.Expr, bind types.Obje
 		if bind != nil {
 			lines = append(lines, fmt.Sprintf("  let %s : Node := %s", c.name(bind), ev))
 		}
-		lines = append(lines, paIndent(yes())...)
+		lines = append(lines, paIndent(yesB("Node"))...)
 		lines = append(lines, "else")
-		return append(lines, paIndent(no())...)
+		return append(lines, paIndent(noB())...)
 	}
 	k := c.g.kindOf(tt)
 	if k == nil {
@@ -479,9 +649,9 @@ func (c *paCtx) typeTest(ev string, from types.Type, t ast.Expr, bind types.Obje
 	}
 	lines = append(lines, fmt.Sprintf("match %s %s with", k.as, ev))
 	lines = append(lines, fmt.Sprintf("| some %s =>", b))
-	lines = append(lines, paIndent(yes())...)
+	lines = append(lines, paIndent(yesB(k.lean))...)
 	lines = append(lines, "| none =>")
-	return append(lines, paIndent(no())...)
+	return append(lines, paIndent(noB())...)
 }
 
 func (c *paCtx) atomise(code string, ty string, lines *[]string) string {
@@ -500,7 +670,16 @@ func (c *paCtx) stmt(s ast.Stmt, rest func() []string) []string {
 	case *ast.EmptyStmt:
 		return rest()
 	case *ast.ReturnStmt:
-		sig := c.fn.obj.Type().(*types.Signature)
+		sig := c.sig
+		if len(x.Results) == 1 && sig.Results().Len() == 1 {
+			if call, o, fd := c.helperCall(x.Results[0]); fd != nil {
+				rt := sig.Results().At(0).Type()
+				ht := o.Type().(*types.Signature).Results()
+				return c.inlineCall(call, o, fd, func(val string) []string {
+					return c.ret(c.inject(val, ht.At(0).Type(), rt))
+				})
+			}
+		}
 		if len(x.Results) == 0 {
 			if sig.Results().Len() != 0 {
 				paFail("a bare return of named results")
@@ -523,9 +702,15 @@ func (c *paCtx) stmt(s ast.Stmt, rest func() []string) []string {
 				return []string{"Go.panic"}
 			}
 		}
+		if hc, o, fd := c.helperCall(call); fd != nil {
+			return c.inlineCall(hc, o, fd, func(string) []string { return rest() })
+		}
 		var pre []string
 		code, unit := c.call(call, &pre)
 		if unit {
+			if c.inLoop && strings.HasPrefix(code, "let ") {
+				paFail("%s inside a loop", norm(x))
+			}
 			pre = append(pre, code)
 		}
 		return append(pre, rest()...)
@@ -534,7 +719,26 @@ func (c *paCtx) stmt(s ast.Stmt, rest func() []string) []string {
 			paFail("assignment %s", norm(x))
 		}
 		var pre []string
+		// the value goes into the Lean variable `name`: `let t ← X` as the last step becomes `let name ← X`
+		setVar := func(name, ty, val string) []string {
+			if n := len(pre); n > 0 && strings.HasPrefix(pre[n-1], "let "+val+" ← ") && val != name {
+				pre[n-1] = "let " + name + " ← " + strings.TrimPrefix(pre[n-1], "let "+val+" ← ")
+				c.used[val] = false
+			} else {
+				pre = append(pre, fmt.Sprintf("let %s : %s := %s", name, ty, val))
+			}
+			c.bind(name, ty)
+			return append(pre, rest()...)
+		}
 		switch l := paParen(x.Lhs[0]).(type) {
+		case *ast.StarExpr:
+			if v := c.listVar(l); v != nil && x.Tok == token.ASSIGN {
+				if c.inLoop {
+					paFail("assignment %s inside a loop", norm(x))
+				}
+				val := c.inject(c.expr(x.Rhs[0], &pre), c.typeOf(x.Rhs[0]), v.Type().(*types.Pointer).Elem())
+				return setVar(c.name(v), "Sl", val)
+			}
 		case *ast.Ident:
 			if l.Name == "_" {
 				c.expr(x.Rhs[0], &pre)
@@ -553,8 +757,22 @@ func (c *paCtx) stmt(s ast.Stmt, rest func() []string) []string {
 			if !ok || v.IsField() || v.Parent() == v.Pkg().Scope() {
 				paFail("assignment to %s", l.Name)
 			}
+			if c.inout[v] {
+				paFail("assignment to the pointer %s", l.Name)
+			}
+			if hc, ho, fd := c.helperCall(x.Rhs[0]); fd != nil {
+				ht := ho.Type().(*types.Signature).Results()
+				return c.inlineCall(hc, ho, fd, func(val string) []string {
+					pre = nil
+					return setVar(c.name(v), c.g.leanType(v.Type()), c.inject(val, ht.At(0).Type(), v.Type()))
+				})
+			}
 			val := c.inject(c.expr(x.Rhs[0], &pre), c.typeOf(x.Rhs[0]), v.Type())
+			if c.g.leanType(v.Type()) == "Sl" {
+				return setVar(c.name(v), "Sl", val)
+			}
 			pre = append(pre, fmt.Sprintf("let %s : %s := %s", c.name(v), c.g.leanType(v.Type()), val))
+			c.bind(c.name(v), c.g.leanType(v.Type()))
 			return append(pre, rest()...)
 		case *ast.IndexExpr:
 			if x.Tok == token.ASSIGN {
@@ -620,16 +838,49 @@ func (c *paCtx) stmt(s ast.Stmt, rest func() []string) []string {
 			}
 			paFail("if statement with the initialisation %s", norm(x.Init))
 		}
+		thenB := func() []string { return c.scoped(func() []string { return c.stmts(x.Body.List, rest) }) }
+		elseB := func() []string {
+			return c.scoped(func() []string {
+				if x.Else != nil {
+					return c.stmt(x.Else, rest)
+				}
+				return rest()
+			})
+		}
+		// the condition is (the negation of) a call of a helper: in line, every `return v` of the helper goes on with the
+		// branch v selects
+		hcond, neg := paParen(x.Cond), false
+		for {
+			u, ok := hcond.(*ast.UnaryExpr)
+			if !ok || u.Op != token.NOT {
+				break
+			}
+			hcond, neg = paParen(u.X), !neg
+		}
+		if hc, o, fd := c.helperCall(hcond); fd != nil {
+			return c.inlineCall(hc, o, fd, func(val string) []string {
+				yes, no := thenB, elseB
+				if neg {
+					yes, no = no, yes
+				}
+				switch val {
+				case "true":
+					return yes()
+				case "false":
+					return no()
+				}
+				ls := []string{"if " + val + " then"}
+				ls = append(ls, paIndent(yes())...)
+				ls = append(ls, "else")
+				return append(ls, paIndent(no())...)
+			})
+		}
 		var lines []string
 		cond := c.expr(x.Cond, &lines)
 		lines = append(lines, "if "+cond+" then")
-		lines = append(lines, paIndent(c.stmts(x.Body.List, rest))...)
+		lines = append(lines, paIndent(thenB())...)
 		lines = append(lines, "else")
-		if x.Else != nil {
-			lines = append(lines, paIndent(c.stmt(x.Else, rest))...)
-		} else {
-			lines = append(lines, paIndent(rest())...)
-		}
+		lines = append(lines, paIndent(elseB())...)
 		return lines
 	case *ast.TypeSwitchStmt:
 		if x.Init != nil {
@@ -698,6 +949,9 @@ func (c *paCtx) rangeLoop(x *ast.RangeStmt, rest func() []string) []string {
 	if k == nil || k.lean != "Sl" || (x.Tok != token.DEFINE && (x.Key != nil || x.Value != nil)) {
 		paFail("range over %s", norm(x.X))
 	}
+	if c.loopNeedsK(x) {
+		return c.rangeLoopK(x, rest)
+	}
 	ast.Inspect(x.Body, func(n ast.Node) bool {
 		switch b := n.(type) {
 		case *ast.ReturnStmt:
@@ -761,17 +1015,21 @@ func (c *paCtx) rangeLoop(x *ast.RangeStmt, rest func() []string) []string {
 	}
 	c.used[kv] = true
 	var body []string
+	nScope := len(c.scope)
 	if id, ok := x.Key.(*ast.Ident); ok && id.Name != "_" {
 		body = append(body, fmt.Sprintf("let %s : Int := %s", c.name(c.info.Defs[id]), kv))
+		c.bind(c.name(c.info.Defs[id]), "Int")
 	}
 	if id, ok := x.Value.(*ast.Ident); ok && id.Name != "_" {
 		body = append(body, fmt.Sprintf("let %s ← Go.idx %s %s", c.name(c.info.Defs[id]), rng, kv))
+		c.bind(c.name(c.info.Defs[id]), "Node")
 	}
 	again := name + " fuel " + strings.Join(pats, " ") + " (" + kv + " + 1)"
 	saveRet, saveIn := c.ret, c.inLoop
 	c.inLoop = true
 	body = append(body, c.stmts(x.Body.List, func() []string { return []string{again} })...)
 	c.ret, c.inLoop = saveRet, saveIn
+	c.scope = c.scope[:nScope:nScope]
 	under := strings.Repeat(", _", len(pats)+1)
 	def := []string{
 		fmt.Sprintf("def %s : Nat → %s → Int → M Unit", name, strings.Join(tys, " → ")),
@@ -788,6 +1046,303 @@ func (c *paCtx) rangeLoop(x *ast.RangeStmt, rest func() []string) []string {
 	return append(lines, rest()...)
 }
 
+// does the loop need the continuation form: its body returns, changes a variable of the function (an assignment, a call of
+// an in-out method) or calls a helper
+func (c *paCtx) loopNeedsK(x *ast.RangeStmt) bool {
+	need := false
+	ast.Inspect(x.Body, func(n ast.Node) bool {
+		switch y := n.(type) {
+		case *ast.ReturnStmt:
+			need = true
+		case *ast.AssignStmt:
+			if y.Tok == token.ASSIGN {
+				for _, l := range y.Lhs {
+					switch paParen(l).(type) {
+					case *ast.Ident, *ast.StarExpr:
+						need = true
+					}
+				}
+			}
+		case *ast.CallExpr:
+			if o := calleeObj(c.info, y); o != nil {
+				if r := o.Type().(*types.Signature).Recv(); r != nil && c.g.isListPtr(r.Type()) {
+					need = true
+				}
+				if helperDecl(o, c.fn.pkg, c.g.byObj[o] != nil) != nil {
+					need = true
+				}
+			}
+		}
+		return true
+	})
+	return need
+}
+
+const paAgain = "\x00again\x00"
+
+func paTokens(lines []string) map[string]bool {
+	out := map[string]bool{}
+	for _, l := range lines {
+		for _, w := range strings.FieldsFunc(l, func(r rune) bool {
+			return !(r == '_' || r == '\'' || (r >= '0' && r <= '9') || (r >= 'a' && r <= 'z') || (r >= 'A' && r <= 'Z'))
+		}) {
+			out[w] = true
+		}
+	}
+	return out
+}
+
+// for i, v := range s { body } in CONTINUATION style: the loop function takes the variables in scope that the loop or what
+// follows it mentions, goes round with their current values, and its exit branch is what follows the loop (`rest`); a
+// `return` of the body is a `return` of the function.  The header is evaluated once (a copy, when the body changes it).
+func (c *paCtx) rangeLoopK(x *ast.RangeStmt, rest func() []string) []string {
+	ast.Inspect(x.Body, func(n ast.Node) bool {
+		switch b := n.(type) {
+		case *ast.BranchStmt:
+			paFail("%s inside a loop", b.Tok.String())
+		case *ast.FuncLit:
+			paFail("function literal")
+		}
+		return true
+	})
+	if c.inLoop {
+		paFail("a loop in continuation form inside a loop")
+	}
+	var lines []string
+	hdr := c.expr(x.X, &lines)
+	// a copy of the header, unless it is a variable the body does not change
+	hv := c.listVar(x.X)
+	changed := hv == nil
+	if hv != nil {
+		ast.Inspect(x.Body, func(n ast.Node) bool {
+			switch y := n.(type) {
+			case *ast.AssignStmt:
+				for _, l := range y.Lhs {
+					if c.listVar(l) == hv {
+						changed = true
+					}
+				}
+			case *ast.CallExpr:
+				if se, ok := paParen(y.Fun).(*ast.SelectorExpr); ok && c.listVar(se.X) == hv {
+					if o := calleeObj(c.info, y); o != nil {
+						if r := o.Type().(*types.Signature).Recv(); r != nil && c.g.isListPtr(r.Type()) {
+							changed = true
+						}
+					}
+				}
+			}
+			return true
+		})
+	}
+	if changed {
+		rng := "rng"
+		for c.used[rng] {
+			rng += "'"
+		}
+		c.used[rng] = true
+		lines = append(lines, fmt.Sprintf("let %s : Sl := %s", rng, hdr))
+		c.bind(rng, "Sl")
+		hdr = rng
+	}
+	c.loops++
+	name := fmt.Sprintf("%s_loop%d", c.fn.key, c.loops)
+	kv := "k"
+	for c.used[kv] {
+		kv += "'"
+	}
+	c.used[kv] = true
+	outer := append([]paVar{}, c.scope...)
+	nScope := len(c.scope)
+	head := []string{fmt.Sprintf("if decide (%s < Go.len %s) then", kv, hdr)}
+	var body []string
+	if id, ok := x.Key.(*ast.Ident); ok && id.Name != "_" {
+		body = append(body, fmt.Sprintf("let %s : Int := %s", c.name(c.info.Defs[id]), kv))
+		c.bind(c.name(c.info.Defs[id]), "Int")
+	}
+	if id, ok := x.Value.(*ast.Ident); ok && id.Name != "_" {
+		body = append(body, fmt.Sprintf("let %s ← Go.idx %s %s", c.name(c.info.Defs[id]), hdr, kv))
+		c.bind(c.name(c.info.Defs[id]), "Node")
+	}
+	body = append(body, c.stmts(x.Body.List, func() []string { return []string{paAgain} })...)
+	c.scope = c.scope[:nScope:nScope]
+	exit := c.scoped(rest)
+	c.used[kv] = false
+	// the parameters: the variables in scope that the loop function mentions
+	toks := paTokens(append(append(append([]string{}, head...), body...), exit...))
+	var tys, pats []string
+	for _, v := range outer {
+		if toks[v.name] {
+			tys = append(tys, v.ty)
+			pats = append(pats, v.name)
+		}
+	}
+	again := name + " fuel " + strings.Join(pats, " ") + " (" + kv + " + 1)"
+	def := []string{
+		fmt.Sprintf("def %s : Nat → %s → Int → M %s", name, strings.Join(tys, " → "), c.resTy),
+		"  | 0" + strings.Repeat(", _", len(pats)+1) + " => Go.outOfFuel",
+		fmt.Sprintf("  | fuel + 1, %s, %s => do", strings.Join(pats, ", "), kv),
+		"    " + head[0],
+	}
+	for _, l := range body {
+		def = append(def, "      "+strings.ReplaceAll(l, paAgain, again))
+	}
+	def = append(def, "    else")
+	for _, l := range exit {
+		def = append(def, "      "+l)
+	}
+	def = append(def, "")
+	c.aux = append(c.aux, def...)
+	return append(lines, name+" fuel "+strings.Join(pats, " ")+" 0")
+}
+
+// ---- helpers in line ----
+
+// e is a call of an unexported function / method of the package that is not translated on its own
+func (c *paCtx) helperCall(e ast.Expr) (*ast.CallExpr, *types.Func, *ast.FuncDecl) {
+	call, ok := paParen(e).(*ast.CallExpr)
+	if !ok {
+		return nil, nil, nil
+	}
+	o := calleeObj(c.info, call)
+	if o == nil {
+		return nil, nil, nil
+	}
+	fd := helperDecl(o, c.fn.pkg, c.g.byObj[o] != nil)
+	if fd == nil {
+		return nil, nil, nil
+	}
+	for _, f := range c.inl {
+		if f == o {
+			paFail("the helper %s is recursive", o.Name())
+		}
+	}
+	return call, o, fd
+}
+
+// the variables a body assigns (or takes the address of)
+func paAssignedVars(info *types.Info, body ast.Node) map[types.Object]bool {
+	out := map[types.Object]bool{}
+	mark := func(e ast.Expr) {
+		if id, ok := paParen(e).(*ast.Ident); ok {
+			if o := info.Uses[id]; o != nil {
+				out[o] = true
+			}
+		}
+	}
+	ast.Inspect(body, func(n ast.Node) bool {
+		switch y := n.(type) {
+		case *ast.AssignStmt:
+			for _, l := range y.Lhs {
+				mark(l)
+			}
+		case *ast.IncDecStmt:
+			mark(y.X)
+		case *ast.UnaryExpr:
+			if y.Op == token.AND {
+				mark(y.X)
+			}
+		case *ast.RangeStmt:
+			if y.Tok == token.ASSIGN {
+				if y.Key != nil {
+					mark(y.Key)
+				}
+				if y.Value != nil {
+					mark(y.Value)
+				}
+			}
+		}
+		return true
+	})
+	return out
+}
+
+func paIsName(s string) bool {
+	if s == "" || s == "true" || s == "false" {
+		return false
+	}
+	for _, r := range s {
+		if !(r == '_' || r == '\'' || (r >= '0' && r <= '9') || (r >= 'a' && r <= 'z') || (r >= 'A' && r <= 'Z')) {
+			return false
+		}
+	}
+	return !(s[0] >= '0' && s[0] <= '9')
+}
+
+// the call of the helper o (declaration fd) translated in line: the arguments are bound to the helper's parameters (a
+// parameter the helper never assigns, given a variable, IS that variable), the body follows, and every `return v` of it goes
+// on with k(v) — the translation of what follows the call in the caller
+func (c *paCtx) inlineCall(call *ast.CallExpr, o *types.Func, fd *ast.FuncDecl, k func(val string) []string) []string {
+	sig := o.Type().(*types.Signature)
+	if sig.Variadic() || call.Ellipsis.IsValid() || sig.Results().Len() > 1 || sig.Params().Len() != len(call.Args) {
+		paFail("helper %s: its signature", o.Name())
+	}
+	if sig.Results().Len() == 1 && sig.Results().At(0).Name() != "" {
+		paFail("helper %s: named result", o.Name())
+	}
+	ast.Inspect(fd.Body, func(n ast.Node) bool {
+		if _, ok := n.(*ast.FuncLit); ok {
+			paFail("helper %s: function literal", o.Name())
+		}
+		return true
+	})
+	var lines []string
+	assigned := paAssignedVars(c.info, fd.Body)
+	bindParam := func(p *types.Var, code string) {
+		if p.Name() == "" || p.Name() == "_" {
+			return
+		}
+		delete(c.names, p)
+		if !assigned[p] && paIsName(code) {
+			c.names[p] = code
+			return
+		}
+		ty := c.g.leanType(p.Type())
+		lines = append(lines, fmt.Sprintf("let %s : %s := %s", c.name(p), ty, code))
+		c.bind(c.name(p), ty)
+	}
+	if r := sig.Recv(); r != nil {
+		se, ok := paParen(call.Fun).(*ast.SelectorExpr)
+		if !ok {
+			paFail("helper %s: method value", o.Name())
+		}
+		if c.g.isListPtr(r.Type()) { // the helper works on the caller's list variable
+			v := c.listVar(se.X)
+			if v == nil {
+				paFail("helper %s: the receiver is not a list variable", o.Name())
+			}
+			delete(c.names, r)
+			c.names[r] = c.name(v)
+			c.inout[r] = true
+		} else if v := c.listVar(se.X); v != nil && c.inout[v] {
+			bindParam(r, c.name(v))
+		} else {
+			bindParam(r, c.expr(se.X, &lines))
+		}
+	}
+	for i, a := range call.Args {
+		p := sig.Params().At(i)
+		bindParam(p, c.inject(c.expr(a, &lines), c.typeOf(a), p.Type()))
+	}
+	saveRet, saveSig, saveInl := c.ret, c.sig, c.inl
+	c.inl = append(append([]*types.Func{}, c.inl...), o)
+	c.sig = sig
+	c.ret = func(val string) []string {
+		r, s, in := c.ret, c.sig, c.inl
+		c.ret, c.sig, c.inl = saveRet, saveSig, saveInl
+		out := k(val)
+		c.ret, c.sig, c.inl = r, s, in
+		return out
+	}
+	body := c.stmts(fd.Body.List, func() []string {
+		if sig.Results().Len() != 0 {
+			paFail("helper %s: the end of its body can be reached without a return", o.Name())
+		}
+		return c.ret("()")
+	})
+	c.ret, c.sig, c.inl = saveRet, saveSig, saveInl
+	return append(lines, body...)
+}
+
 // ---- functions ----
 
 func (g *paGen) translate(f *paFn) {
@@ -801,8 +1356,9 @@ func (g *paGen) translate(f *paFn) {
 			panic(r)
 		}
 	}()
-	c := &paCtx{g: g, fn: f, info: f.pkg.info, names: map[types.Object]string{}, used: map[string]bool{}}
+	c := &paCtx{g: g, fn: f, info: f.pkg.info, names: map[types.Object]string{}, used: map[string]bool{}, inout: map[*types.Var]bool{}}
 	sig := f.obj.Type().(*types.Signature)
+	c.sig = sig
 	var tys, pats []string
 	add := func(v *types.Var, t types.Type) {
 		tys = append(tys, g.leanType(t))
@@ -810,10 +1366,16 @@ func (g *paGen) translate(f *paFn) {
 			pats = append(pats, "_")
 		} else {
 			pats = append(pats, c.name(v))
+			c.bind(c.name(v), g.leanType(t))
 		}
 	}
 	if r := sig.Recv(); r != nil {
-		if g.kindOf(r.Type()) == nil {
+		if f.inout {
+			if r.Name() == "" || r.Name() == "_" {
+				paFail("a pointer receiver without a name")
+			}
+			c.inout[r] = true
+		} else if g.kindOf(r.Type()) == nil {
 			paFail("receiver of type %s", r.Type().String())
 		}
 		add(r, r.Type())
@@ -830,6 +1392,19 @@ func (g *paGen) translate(f *paFn) {
 	} else if sig.Results().Len() > 1 {
 		paFail("several results")
 	}
+	if f.inout {
+		if res != "Unit" {
+			paFail("a pointer-receiver method with a result")
+		}
+		res = "Sl" // the new value of the variable the receiver points to
+		recv := sig.Recv()
+		c.resTy = res
+		c.ret = func(string) []string { return []string{"pure " + c.name(recv)} }
+		body := c.stmts(f.decl.Body.List, func() []string { return c.ret("()") })
+		f.text = append(c.aux, paDef(f, tys, pats, res, body)...)
+		return
+	}
+	c.resTy = res
 	c.ret = func(v string) []string { return []string{"pure " + paAtom(v)} }
 	end := func() []string {
 		if res != "Unit" {
@@ -838,6 +1413,10 @@ func (g *paGen) translate(f *paFn) {
 		return []string{"pure ()"}
 	}
 	body := c.stmts(f.decl.Body.List, end)
+	f.text = append(c.aux, paDef(f, tys, pats, res, body)...)
+}
+
+func paDef(f *paFn, tys, pats []string, res string, body []string) []string {
 	def := []string{
 		fmt.Sprintf("/-- %s -/", f.obj.FullName()),
 		fmt.Sprintf("def %s : Nat → %s → M %s", f.key, strings.Join(tys, " → "), res),
@@ -847,8 +1426,7 @@ func (g *paGen) translate(f *paFn) {
 	for _, l := range body {
 		def = append(def, "    "+l)
 	}
-	def = append(def, "")
-	f.text = append(c.aux, def...)
+	return append(def, "")
 }
 
 func paFindDecl(p *concPkg, recv, name string) *ast.FuncDecl {
@@ -954,6 +1532,13 @@ func astProgSection() string {
 			continue
 		}
 		g.byObj[f.obj] = f
+		if r := f.obj.Type().(*types.Signature).Recv(); r != nil && g.kindOf(r.Type()) == nil {
+			if p, ok := r.Type().(*types.Pointer); ok {
+				if k := g.kindOf(p.Elem()); k != nil && k.lean == "Sl" {
+					f.inout = true
+				}
+			}
+		}
 	}
 	okAll := len(bad) == 0
 	for _, f := range g.fns {
